@@ -901,8 +901,8 @@ class C04(StepBase):
             return ev
         exp = s.split(" ; ")
         items = i.split(" ; ")
-        if items[-1] != "plain=ok":
-            ev.judge = "stepthrough() and stepthrough_with_data() disagree on this section"
+        if not items[-1].startswith("plain=ok"):
+            ev.judge = "stepthrough() and stepthrough_with_data() disagree on this section: " + items[-1]
             return ev
         items = items[:-1]
         match = exp[-1] == "match"
@@ -1189,6 +1189,13 @@ class C07(LinesBase):
                 if i != m:
                     ev.corr = "impl %r vs model %r" % (i, m)
                 return ev
+            plain = [x for x in i.split(" ; ") if x.startswith("plain=")]
+            if plain and plain[0] != "plain=ok":
+                _, cnt, how = plain[0].split(":")
+                if how == "endless" or int(cnt) > n + 1:
+                    ev.judge = "section.stepthrough() (the API without records) yielded %s items for %d records and %s" % (cnt, n, "did not end" if how == "endless" else "ended")
+                else:
+                    ev.corr = "stepthrough() and stepthrough_with_data() disagree: " + plain[0]
             ii, mm = [x for x in i.split(" ; ") if not x.startswith("plain=")], [x for x in m.split(" ; ") if not x.startswith("plain=")]
             def obs(xs):
                 errs = [k for k, x in enumerate(xs) if x.startswith("E")]
